@@ -4,5 +4,6 @@ CONSTANTS
   BlockInverted = FALSE
   CaseSensitive = TRUE
   StripOnValidate = FALSE
+  MappedByPrefix = FALSE
 SPECIFICATION Spec
 CHECK_DEADLOCK FALSE
